@@ -85,7 +85,8 @@ def corpus():
 
 
 # ----------------------------------------------------------------------------- implementation side
-def run_impl(c):
+def run_impl(c, shared=None):
+    """shared: a dict that keeps ONE ShapleyImportance object (with an identity feature pipeline) across calls"""
     import numpy as np
     if c["utility"] == "accuracy":
         from datascope.importance.shapley import ShapleyImportance, DEFAULT_NN_DISTANCE
@@ -94,7 +95,14 @@ def run_impl(c):
         X = np.array(c["features"], dtype=float)
         Xv = np.array(c["features_test"], dtype=float)
         y, yv = np.array(c["labels"]), np.array(c["y_test"])
-        imp = ShapleyImportance(method="neighbor", utility=SklearnModelAccuracy(KNeighborsClassifier(n_neighbors=1)))
+        if shared is None:
+            imp = ShapleyImportance(method="neighbor", utility=SklearnModelAccuracy(KNeighborsClassifier(n_neighbors=1)))
+        else:
+            if "imp" not in shared:
+                from sklearn.preprocessing import FunctionTransformer
+                shared["imp"] = ShapleyImportance(method="neighbor", pipeline=FunctionTransformer(),
+                                                  utility=SklearnModelAccuracy(KNeighborsClassifier(n_neighbors=1)))
+            imp = shared["imp"]
         imp.fit(X, y, provenance=nn.make_provenance(c))
         s = np.asarray(imp.score(Xv, yv), dtype=float)
         D = DEFAULT_NN_DISTANCE(X, Xv)
